@@ -64,6 +64,19 @@ def run(tier, replay=None):
             return run.finish()
         run.add_tlc(res)
         cases += res.replays
+    # scale: the model bounds text lengths at 2-3 classes; a few records of the same shape with fields of 300, 5 000
+    # and 70 000 characters (buffers, length fields) are added to the replay
+    base = dict(cases[0])
+    mix = ["plain", "quote", "b3", "lf", "plain", "bslash", "b4", "plain", "ctl", "b2"]
+    for n in (255, 256, 257, 5000, 65535, 65536, 70001):
+        long_text = [mix[k % len(mix)] for k in range(n)]
+        for f in ("message", "target", "module_path", "file", "thread"):
+            if f == "thread" and n > 5000:
+                continue
+            c = dict(base)
+            c["message"], c["target"] = ["plain"], ["plain"]
+            c[f] = long_text
+            cases.append(c)
     wd = C.workdir("c12_" + tier)
     inp, outp = os.path.join(wd, "cases.ndjson"), os.path.join(wd, "out.ndjson")
     C.write_ndjson(inp, cases)
